@@ -9,6 +9,16 @@ key order: has_number[y][x] row-major (y outer, x inner), bool.
 
 Cap rule (no clues, an instance is a room partition): all partitions of the board into connected rooms in canonical
 order (by number of rooms, then by cells); when there are more than `cap`, every ceil(P/cap)-th one.
+
+("large", h, w, level) shapes: larger boards with a small fixed set of room partitions - structured ones (stripes, bands,
+dominoes, 2x2 / 2x3 / 3x3 blocks, a tiling by L-trominoes, nested L shapes (room sizes 4, 5, 7, 9, 11 ...), halves, the
+whole board, the irregular partitions published in norinori.py (6x6) and lits.py (10x10) tiled over / cropped to the
+board; putteria.py has no instance of its own), partitions grown around the number cells of an answer, "tight" partitions
+(bars of cycling lengths laid in a snake over the board, the ones with the fewest answers - often exactly one), such
+partitions with one cell moved to a neighbouring room, boards with two one-cell rooms far apart in one line (unsolvable
+for that reason alone), on 1xN boards [a][N-2a][a] with two-digit a, and on some boards the partitions of a small block
+(2x2, 2x3, 3x2, 3x3) placed in the far corner, the rest of the board being one room.  They are answered by search(), an exact room-by-room search;
+selftest() compares it with the brute-force product.
 """
 
 import itertools
@@ -17,6 +27,18 @@ from . import base
 from .. import graphref
 
 _PARTS = {}
+_LARGE = {}
+_SOLS = {}
+LIMIT = 400000  # search() refuses to return more answers than this (harness error, never a verdict)
+INST_CAP = 5000  # a partition with more answers than this is not used as a large instance
+NODE_CAP = 200000  # ... nor one whose search tree is larger than this
+NORINORI_EXAMPLE = ["001112", "111132", "413333", "415556", "777756", "888776"]
+LITS_EXAMPLE = ["0000000222", "0010002222", "1113332222", "5563444288", "5663422228", "5663223338", "5633333338", "6673339aaa", "6773999aab", "77bbbbbbbb"]
+QUICK = ("rows", "bands-2-rows", "blocks-2x3", "nested-l-far", "norinori-example", "lits-example", "halves", "staircase")
+
+
+class TooMany(RuntimeError):
+    pass
 
 
 def _own_partitions(h, w, min_size):
@@ -85,6 +107,265 @@ def capped(items, cap):
     return items[::step]
 
 
+def search(h, w, rooms, limit=LIMIT, max_nodes=0):
+    """All answers (row-major tuples, True = number cell) for the rooms (lists of (y, x)).
+
+    Room by room (in order of their smallest cell) one cell is chosen for the number; a choice is refused when it is
+    edge-adjacent to a number already placed, or when a number of the same value (= a room of the same size) already
+    stands in its row or column.  Every rule concerns pairs of numbers, so this enumerates exactly the rule-obeying
+    grids."""
+    rooms = sorted(sorted((y, x) for y, x in r) for r in rooms)
+    nr = len(rooms)
+    taken = set()
+    row_vals = [set() for _ in range(h)]
+    col_vals = [set() for _ in range(w)]
+    out = []
+    nodes = [0]
+
+    def rec(k):
+        if k == nr:
+            if len(out) >= limit:
+                raise TooMany("putteria oracle: more than %d answers on %dx%d" % (limit, h, w))
+            out.append(tuple((y, x) in taken for y in range(h) for x in range(w)))
+            return
+        n = len(rooms[k])
+        for y, x in rooms[k]:
+            nodes[0] += 1
+            if max_nodes and nodes[0] > max_nodes:
+                raise TooMany("putteria oracle: search budget exceeded on %dx%d" % (h, w))
+            if n in row_vals[y] or n in col_vals[x]:
+                continue
+            if (y - 1, x) in taken or (y + 1, x) in taken or (y, x - 1) in taken or (y, x + 1) in taken:
+                continue
+            taken.add((y, x))
+            row_vals[y].add(n)
+            col_vals[x].add(n)
+            rec(k + 1)
+            taken.discard((y, x))
+            row_vals[y].discard(n)
+            col_vals[x].discard(n)
+
+    rec(0)
+    return out
+
+
+# ---- room partitions of large boards (rooms = sorted lists of (y, x)) -----------------------------------------
+def rooms_from_ids(h, w, f):
+    """Group the cells by f(y, x); a group that is not orthogonally connected is split into its components."""
+    groups = {}
+    for y in range(h):
+        for x in range(w):
+            groups.setdefault(f(y, x), []).append((y, x))
+    rooms = []
+    for g in groups.values():
+        rooms += [sorted(c) for c in base.components(g)]
+    return sorted(rooms)
+
+
+def structured(h, w):
+    """Named structured partitions of the h x w board (duplicates removed)."""
+
+    def ltile(y, x):  # 2x3 blocks, each cut into two L-trominoes
+        return (y // 2, x // 3, (y % 2, x % 3) in ((0, 0), (1, 0), (1, 1)))
+
+    fs = [
+        ("rows", lambda y, x: y), ("columns", lambda y, x: x), ("bands-2-rows", lambda y, x: y // 2), ("bands-2-columns", lambda y, x: x // 2),
+        ("blocks-2x2", lambda y, x: (y // 2, x // 2)), ("blocks-2x3", lambda y, x: (y // 2, x // 3)), ("blocks-3x2", lambda y, x: (y // 3, x // 2)),
+        ("blocks-3x3", lambda y, x: (y // 3, x // 3)), ("l-trominoes", ltile), ("nested-l", lambda y, x: max(y, x, 1)),
+        ("nested-l-far", lambda y, x: max(h - 1 - y, w - 1 - x, 1)),
+        ("norinori-example", lambda y, x: (y // 6, x // 6, NORINORI_EXAMPLE[y % 6][x % 6])),
+        ("lits-example", lambda y, x: (y // 10, x // 10, LITS_EXAMPLE[y % 10][x % 10])),
+        ("lits-example-far", lambda y, x: LITS_EXAMPLE[(y + 10 - h) % 10][(x + 10 - w) % 10] if h <= 10 and w <= 10 else 0),
+        ("whole", lambda y, x: 0), ("halves", lambda y, x: (2 * y >= h, 2 * x >= w)),
+        ("blocks-2x2-shifted", lambda y, x: ((y + 1) // 2, (x + 1) // 2)), ("dominoes", lambda y, x: (y, x // 2)),
+        ("staircase", lambda y, x: (y + x) // 2), ("singles", lambda y, x: (y, x)),
+    ]
+    out = []
+    for name, f in fs:
+        rooms = rooms_from_ids(h, w, f)
+        if rooms not in [r for _, r in out]:
+            out.append((name, rooms))
+    return out
+
+
+def snake_bars(h, w, seq, vertical=False, snake=True):
+    """Rooms = bars whose lengths cycle through seq, laid along the rows - continuing backwards in the next row (snake)
+    or cut at the row end - or, with vertical, along the columns."""
+    if vertical:
+        return sorted(sorted((x, y) for y, x in r) for r in snake_bars(w, h, seq, False, snake))
+    ids = {}
+    k, left, rid = 0, seq[0], 0
+    for y in range(h):
+        for x in range(w) if (not snake or y % 2 == 0) else range(w - 1, -1, -1):
+            if left == 0:
+                k += 1
+                left = seq[k % len(seq)]
+                rid += 1
+            ids[(y, x)] = rid
+            left -= 1
+        if not snake:
+            left = 0
+    return rooms_from_ids(h, w, lambda y, x: ids[(y, x)])
+
+
+def tight(h, w, k, sizes=(1, 2, 3, 4, 5), maxlen=3):
+    """The k snake_bars partitions with the fewest (but at least one) answers, over all length sequences of at most
+    maxlen terms: boards with many small rooms, where nearly every rule instance is needed to exclude something."""
+    found = []
+    seen = []
+    for n in range(1, maxlen + 1):
+        for seq in itertools.product(sizes, repeat=n):
+            for vertical in (False, True):
+                for snake in (True, False):
+                    rooms = snake_bars(h, w, seq, vertical, snake)
+                    if rooms in seen:
+                        continue
+                    seen.append(rooms)
+                    try:
+                        sols = search(h, w, rooms, 40, 20000)
+                    except TooMany:
+                        continue
+                    if sols:
+                        found.append((len(sols), len(found), rooms))
+    found.sort()
+    return [rooms for _, _, rooms in found[:k]]
+
+
+def pair_rooms(h, w, a, b):
+    """Two single-cell rooms a and b; the rest of the board is one room (or its components)."""
+    return rooms_from_ids(h, w, lambda y, x: 1 if (y, x) == a else 2 if (y, x) == b else 0)
+
+
+def voronoi(h, w, seeds):
+    """One room per seed (a set of cells): breadth-first growth from all seeds at once, a free cell joins the room that
+    reaches it first (seeds in the given order).  Every room is connected and contains its seed."""
+    owner = {}
+    queue = []
+    for k, seed in enumerate(seeds):
+        for c in sorted(seed):
+            owner[c] = k
+            queue.append(c)
+    qi = 0
+    while qi < len(queue):
+        y, x = queue[qi]
+        qi += 1
+        for c in ((y - 1, x), (y, x - 1), (y, x + 1), (y + 1, x)):
+            if 0 <= c[0] < h and 0 <= c[1] < w and c not in owner:
+                owner[c] = owner[(y, x)]
+                queue.append(c)
+    return rooms_from_ids(h, w, lambda y, x: owner[(y, x)])
+
+
+def spaced(items, k):
+    """First, last and evenly spaced elements (k in total, fewer when there are fewer items)."""
+    if len(items) <= k:
+        return list(items)
+    if k == 1:
+        return [items[len(items) // 2]]
+    return [items[(len(items) - 1) * j // (k - 1)] for j in range(k)]
+
+
+def moved(h, w, rooms, k):
+    """Up to k partitions obtained by moving one cell into a neighbouring room (the donor stays connected and non-empty):
+    evenly spaced among all such moves in row-major order.  Both rooms change their number."""
+    room_of = {c: i for i, r in enumerate(rooms) for c in r}
+    moves = []
+    for y in range(h):
+        for x in range(w):
+            for c in ((y, x + 1), (y + 1, x), (y, x - 1), (y - 1, x)):
+                if c in room_of and room_of[c] != room_of[(y, x)]:
+                    rest = [d for d in rooms[room_of[(y, x)]] if d != (y, x)]
+                    if rest and base.cells_connected(rest):
+                        moves.append(((y, x), room_of[c]))
+    out = []
+    for cell, dst in spaced(moves, k):
+        rs = [[d for d in r if d != cell] for r in rooms]
+        rs[dst] = sorted(rs[dst] + [cell])
+        out.append(sorted(rs))
+    return out
+
+
+def cornered(h, w, bh, bw, part):
+    """The partition part (rooms of (y, x)) of a bh x bw board placed in the far (bottom-right) corner of the h x w
+    board; the rest of the board is one more room (its components, should it fall apart)."""
+    where = {}
+    for k, room in enumerate(part):
+        for y, x in room:
+            where[(y + h - bh, x + w - bw)] = k
+    return rooms_from_ids(h, w, lambda y, x: where.get((y, x), -1))
+
+
+def corner_family(h, w, level):
+    """Every (thorough) / some (quick) partitions of a small block, in the far corner of the board."""
+    plan = [(2, 3, 5), (3, 2, 5)] if level == 0 else [(2, 2, 12), (2, 3, 30), (3, 2, 30), (3, 3, 60)]
+    out = []
+    for bh, bw, k in plan:
+        if bh < h and bw < w and h * w >= 24:
+            for part in spaced(room_partitions(bh, bw), k):
+                out.append(cornered(h, w, bh, bw, [[tuple(c) for c in b] for b in part]))
+    return out
+
+
+def large_instances(h, w, level):
+    """The fixed instance set of a large board (cached: the driver asks for it once per shard)."""
+    key = (h, w, level)
+    if key in _LARGE:
+        return _LARGE[key]
+    out = []
+
+    def add(rooms):
+        if rooms in out:
+            return None
+        try:
+            sols = search(h, w, rooms, INST_CAP, NODE_CAP)
+        except TooMany:
+            return None
+        _SOLS[repr([[list(c) for c in r] for r in rooms])] = sols
+        out.append(rooms)
+        return sols
+
+    pool = []  # answers of the structured partitions: the grids the derived partitions are built from
+    named = structured(h, w)
+    if level == 0:
+        named = [(nm, r) for nm, r in named if nm in QUICK]
+    for name, rooms in named:
+        sols = add(rooms)
+        if sols:
+            pool += spaced(sols, 3)
+    grids = []
+    for g in pool:
+        if g not in grids:
+            grids.append(g)
+    derived = []
+    for g in spaced(grids, 1 if level == 0 else 8):
+        part = voronoi(h, w, [[(i // w, i % w)] for i in range(h * w) if g[i]])
+        if add(part) is not None:
+            derived.append(part)
+    tights = tight(h, w, 3 if level == 0 else 10, maxlen=3 if level == 0 else 4)
+    for rooms in tights:
+        add(rooms)
+    for rooms in tights + derived[: 1 if level == 0 else 4] + [r for nm, r in named if nm in ("norinori-example", "lits-example", "blocks-2x3", "nested-l-far")][: 1 if level == 0 else 4]:
+        for m in moved(h, w, rooms, 1 if level == 0 else 4):
+            add(m)
+    # two rooms of one cell (both hold a 1) far apart in one row / one column: unsolvable for that reason alone; and in
+    # different rows and columns: solvable, both cells decided
+    pairs = [((0, 0), (0, w - 1)), ((h - 1, 0), (h - 1, w - 1)), ((0, 0), (h - 1, 0)), ((0, w - 1), (h - 1, w - 1)), ((0, 0), (h - 1, w - 1)), ((h - 1, 0), (0, w - 1))]
+    pairs += [((h - 1, w - 3), (h - 1, w - 1)), ((h - 3, w - 1), (h - 1, w - 1)), ((h // 2, 1), (h // 2, w - 2)), ((1, w // 2), (h - 2, w // 2))]
+    for a, b in pairs[:: 2 if level == 0 else 1]:
+        if a != b and all(0 <= c[0] < h and 0 <= c[1] < w for c in (a, b)):
+            add(pair_rooms(h, w, a, b))
+    if min(h, w) == 1:
+        n = max(h, w)
+        for a in (1, 2, 3, 9, 10, 11, 12, n // 2):  # [a][n - 2a][a]: the two outer rooms hold the same number in the only line
+            if 2 * a <= n:
+                add(rooms_from_ids(h, w, lambda y, x: 0 if max(y, x) < a else 2 if max(y, x) >= n - a else 1))
+    if (h, w) in ((6, 6),) or (level > 0 and (h, w) in ((4, 6), (6, 4))):
+        for rooms in corner_family(h, w, level):
+            add(rooms)
+    _LARGE[key] = [{"height": h, "width": w, "blocks": [[list(c) for c in r] for r in rooms]} for rooms in out]
+    return _LARGE[key]
+
+
 class Putteria(base.Rule):
     name = "putteria"
 
@@ -92,9 +373,16 @@ class Putteria(base.Rule):
         s = [(1, 1), (1, 2), (2, 1), (1, 3), (3, 1), (2, 2), (1, 4), (4, 1), (2, 3), (3, 2), (3, 3)]
         if tier != "quick":
             s += [(1, 5), (5, 1), (2, 4), (4, 2), (2, 5), (5, 2), (3, 4), (4, 3)]
-        return s
+        big = [(6, 6), (4, 6), (6, 4), (1, 12), (12, 1), (2, 10), (10, 2), (1, 24), (24, 1)]
+        if tier != "quick":
+            big = [(4, 4), (5, 5)] + big + [(4, 5), (5, 4), (5, 6), (6, 5), (7, 7), (8, 8), (10, 10), (3, 8), (8, 3), (1, 16), (16, 1), (2, 12), (12, 2), (5, 8), (8, 5), (6, 12), (12, 6)]
+        return s + [("large", h, w, 0 if tier == "quick" else 1) for h, w in big]
 
     def instances(self, shape, cap):
+        if shape[0] == "large":
+            for p in large_instances(shape[1], shape[2], shape[3]):
+                yield p
+            return
         h, w = shape
         for blocks in capped(room_partitions(h, w), cap):
             yield {"height": h, "width": w, "blocks": blocks}
@@ -110,6 +398,13 @@ class Putteria(base.Rule):
     def readings(self, p):
         h, w = p["height"], p["width"]
         rooms = [[(y, x) for y, x in b] for b in p["blocks"]]
+        if h * w > 12:
+            key = repr(p["blocks"])  # answers computed while the instance set was built (same function)
+            return [_SOLS[key] if key in _SOLS else search(h, w, rooms)]
+        return [self.product(h, w, rooms)]
+
+    def product(self, h, w, rooms):
+        """The small-board oracle: every choice of one cell per room, tested against the rules."""
         out = []
         for pick in itertools.product(*rooms):  # the cell holding the number, one per room
             number = {c: len(rooms[i]) for i, c in enumerate(pick)}
@@ -126,7 +421,7 @@ class Putteria(base.Rule):
                     break
             if ok:
                 out.append(tuple((y, x) in number for y in range(h) for x in range(w)))
-        return [out]
+        return out
 
     def example(self):
         return None  # cspuz/puzzle/putteria.py has no bundled instance
@@ -137,6 +432,26 @@ def selftest():
         own = set(tuple(sorted(tuple(sorted(b)) for b in q)) for q in _own_partitions(h, w, 1))
         ref = set(tuple(sorted(tuple(sorted(tuple(c) for c in b)) for b in q)) for q in room_partitions(h, w, 1))
         assert own == ref, (h, w)
+    # search() against the brute-force product: every partition of the small boards, structured / derived / moved ones
+    # of the medium boards (where the product is still feasible)
+    for h, w in ((1, 1), (1, 2), (2, 1), (1, 4), (2, 2), (2, 3), (3, 2), (3, 3), (2, 4), (4, 2)):
+        for rooms in room_partitions(h, w):
+            rs = [[tuple(c) for c in r] for r in rooms]
+            assert sorted(search(h, w, rs)) == sorted(RULE.product(h, w, rs)), (h, w, rooms)
+    for h, w in ((3, 4), (4, 3), (4, 4), (3, 6), (6, 3), (4, 5), (5, 4), (2, 8), (8, 2), (5, 5), (1, 12)):
+        parts = [r for nm, r in structured(h, w) if nm != "singles"]
+        for r in parts[:8]:
+            parts += moved(h, w, r, 2)
+        for rooms in parts:
+            assert sorted(c for r in rooms for c in r) == [(y, x) for y in range(h) for x in range(w)]
+            assert all(base.cells_connected(r) for r in rooms)
+            size = 1
+            for r in rooms:
+                size *= len(r)
+            if size > 300000:
+                continue
+            got = search(h, w, rooms)
+            assert sorted(got) == sorted(RULE.product(h, w, rooms)), (h, w, rooms)
 
 
 RULE = Putteria()
